@@ -201,6 +201,17 @@ def _one(item):
                     return ("bad", f"the same device with another {dim} could not be compiled: " + short_exc(e)[:100])
                 if m2.instances["x"].of.params == insts[0].of.params:
                     return ("bad", f"given {dim}={spec[1][dim]}u does not reach the device: {dim}={other[dim]}u compiles to the very same device call {str(insts[0].of.params)[:80]}")
+    # ... and so must a given multiplier
+    if spec[0] in ("Cap2", "Cap3", "Bipolar") and "mult" in spec[1]:
+        try:
+            other = dict(spec[1])
+            other["mult"] = type(spec[1]["mult"])(int(spec[1]["mult"]) + 4)
+            t2, m2 = hierarchy(h, (spec[0], other))
+            mod.compile(t2)
+        except Exception as e:
+            return ("bad", "the same device with another multiplier could not be compiled: " + short_exc(e)[:100])
+        if m2.instances["x"].of.params == insts[0].of.params:
+            return ("bad", f"given multiplier {spec[1]['mult']!r} does not reach the device: {other['mult']!r} compiles to the very same device call {str(insts[0].of.params)[:80]}")
     # a size given alone: the other dimension must be the one a fully defaulted device gets
     if spec[0] in ("Mos", "Res2", "Res3", "Cap2", "Cap3") and (("w" in spec[1]) != ("l" in spec[1])):
         try:
@@ -306,6 +317,10 @@ def items_for(tier):
                         out.append((pdk, (cls, dict(kw, w="3", l="1.5")), "two_pdks"))
                         out.append((pdk, (cls, dict(kw, w="3")), "once"))
                         out.append((pdk, (cls, dict(kw, l="1.5")), "once"))
+                        if cls in ("Cap2", "Cap3"):
+                            out.append((pdk, (cls, dict(kw, mult="3")), "once"))
+                    if cls == "Bipolar":
+                        out.append((pdk, (cls, dict(kw, mult=3)), "once"))
         # unknown model names
         if pdk in ("sky130", "gf180"):  # the PDKs that document selection by model name
             for cls in ("Mos", "Res2", "Cap3", "Diode", "Bipolar"):
